@@ -1,3 +1,88 @@
 package main
 
-func run5(f []string) (string, bool) { return "", false }
+import (
+	"fmt"
+	"net/url"
+	"strings"
+
+	"github.com/ja7ad/otp"
+)
+
+// url fields: xScheme,xOpaque,user01,xHost,xPath,xRawPath,force01,xRawQuery,xFragment
+func fmtURL(u *url.URL) string {
+	return strings.Join([]string{hxs(u.Scheme), hxs(u.Opaque), b01(u.User != nil), hxs(u.Host), hxs(u.Path), hxs(u.RawPath),
+		b01(u.ForceQuery), hxs(u.RawQuery), hxs(u.Fragment)}, ",")
+}
+func parseURLFields(s string) *url.URL {
+	if s == "-" {
+		return nil
+	}
+	f := strings.Split(s, ",")
+	u := &url.URL{Scheme: string(unhx(f[0])), Opaque: string(unhx(f[1])), Host: string(unhx(f[3])), Path: string(unhx(f[4])),
+		RawPath: string(unhx(f[5])), ForceQuery: f[6] == "1", RawQuery: string(unhx(f[7])), Fragment: string(unhx(f[8]))}
+	if f[2] == "1" {
+		u.User = url.User("u")
+	}
+	return u
+}
+func parseURLParam(f []string) otp.URLParam {
+	return otp.URLParam{Issuer: string(unhx(f[0])), AccountName: string(unhx(f[1])), Secret: string(unhx(f[2])),
+		Digits: otp.Digits(u64(f[3])), Algorithm: otp.Algorithm(u64(f[4])), Period: uint(u64(f[5]))}
+}
+func fmtURLParam(p *otp.URLParam) string {
+	return fmt.Sprintf("up:%s,%s,%d,%s,%d,%d", hxs(p.Issuer), hxs(p.AccountName), p.Period, hxs(p.Secret), p.Digits, p.Algorithm)
+}
+func genURL(kind string, p otp.URLParam) (*url.URL, error) {
+	if kind == "t" {
+		return otp.GenerateTOTPURL(p)
+	}
+	return otp.GenerateHOTPURL(p)
+}
+
+func run5(f []string) (string, bool) {
+	switch f[0] {
+	case "gurl":
+		u, err := genURL(f[1], parseURLParam(f[2:]))
+		if err != nil {
+			return errOut(err), true
+		}
+		return "url:" + fmtURL(u) + "|" + hxs(u.String()), true
+	case "uparse":
+		u, err := url.Parse(string(unhx(f[1])))
+		if err != nil {
+			return "err:" + hxs(err.Error())[1:], true
+		}
+		return "url:" + fmtURL(u), true
+	case "ustr":
+		return okStr(parseURLFields(f[1]).String()), true
+	case "purl":
+		p, err := otp.ParseOTPAuthURL(parseURLFields(f[1]))
+		if err != nil {
+			return errOut(err), true
+		}
+		return fmtURLParam(p), true
+	case "rturl": // generate -> text -> url.Parse -> ParseOTPAuthURL
+		u, err := genURL(f[1], parseURLParam(f[2:]))
+		if err != nil {
+			return errOut(err), true
+		}
+		u2, err := url.Parse(u.String())
+		if err != nil {
+			return "bad:generated-url-does-not-parse", true
+		}
+		p, err := otp.ParseOTPAuthURL(u2)
+		if err != nil {
+			return errOut(err), true
+		}
+		return fmtURLParam(p) + "|" + hxs(u2.Scheme) + "," + hxs(u2.Host), true
+	case "digstr":
+		return okNum(uint64(otp.DigitsFromStr(string(unhx(f[1]))))), true
+	case "algstr":
+		return okNum(uint64(otp.AlgorithmFromStr(string(unhx(f[1]))))), true
+	case "algname":
+		return okStr(otp.Algorithm(u64(f[1])).String()), true
+	case "digint":
+		return okNum(uint64(otp.Digits(u64(f[1])).Int())), true
+	}
+	return run6(f)
+}
